@@ -25,7 +25,7 @@ var Points = []string{
 
 // Op is one step of a writer goroutine.
 type Op struct {
-	Kind  string `json:"kind"` // write | stop | purge | sleep | progress
+	Kind  string `json:"kind"` // write | stop | purge | sleep | progress | plainread | stormwrite (RR = min parked readers, US = max wait)
 	Cell  int    `json:"cell,omitempty"`
 	Style string `json:"style,omitempty"`
 	RR    int    `json:"rr,omitempty"`
@@ -102,6 +102,8 @@ func (sc *Scenario) Shape() string {
 				s += "P"
 			case "plainread":
 				s += "r"
+			case "stormwrite":
+				s += "W"
 			}
 		}
 	}
@@ -218,7 +220,7 @@ func Run(sc *Scenario, opt Options, agg *vlib.HitAgg) *Result {
 		wg.Add(1)
 		go func(ops []Op) {
 			defer wg.Done()
-			for _, op := range ops {
+			for oi, op := range ops {
 				switch op.Kind {
 				case "write":
 					w.Cells[op.Cell].Write(op.Style)
@@ -228,6 +230,8 @@ func Run(sc *Scenario, opt Options, agg *vlib.HitAgg) *Result {
 					w.RRs[op.RR].Purge()
 				case "plainread":
 					w.Cells[op.Cell].ReadPlain()
+				case "stormwrite":
+					w.Cells[op.Cell].StormWrite(op.RR, time.Duration(op.US)*time.Microsecond, oi)
 				case "sleep":
 					time.Sleep(time.Duration(op.US) * time.Microsecond)
 				case "progress":
@@ -348,7 +352,7 @@ func (w *World) settle(activity func() int64, opt Options) {
 				livelock = rr
 				return true
 			}
-			if !fresh {
+			if !fresh || len(w.invalidDepsLocked(rr.lastOK)) > 0 {
 				return false
 			}
 		}
@@ -364,6 +368,7 @@ func (w *World) settle(activity func() int64, opt Options) {
 		if rr.lastOK != nil {
 			d["last_successful_run"] = rr.lastOK
 			d["stale_reads"] = w.staleLocked(rr.lastOK)
+			d["invalidated_dependencies"] = w.invalidDepsLocked(rr.lastOK)
 			d["final_output"] = rr.lastOK.out
 		} else {
 			d["last_successful_run"] = nil
@@ -386,7 +391,13 @@ func (w *World) settle(activity func() int64, opt Options) {
 				continue
 			}
 			if rr.lastOK != nil && len(w.staleLocked(rr.lastOK)) == 0 {
-				continue
+				if len(w.invalidDepsLocked(rr.lastOK)) == 0 {
+					continue
+				}
+				d := describe(rr)
+				d["stacks"] = vlib.Trunc(vlib.Stacks(), 24000)
+				w.findLocked(KInvalidDep, fmt.Sprintf("system quiescent, rerunner %d is live, its last successful run registered a resource that was invalidated (Invalidate was called on it), and no re-run is pending", rr.Idx), d)
+				break
 			}
 			d := describe(rr)
 			d["stacks"] = vlib.Trunc(vlib.Stacks(), 24000)
